@@ -17,9 +17,9 @@ FORMS_B = '{"p1", "x10", "p2alt", "p2sq", "p2c", "p2mix", "w30"}'
 FORMS_M = '{"p1", "x10", "p2alt", "p2mix", "w30"}'
 GEN_LOG = {
     "quick": dict(NBin="{3, 4}", NMul="{4, 6}", XMaxB=3, XMaxM=2, KMul="{2, 3}", FormsB=FORMS_B, FormsM=FORMS_M,
-                  ThinBD=2, ThinB=43, ThinMD=11, ThinM=53, BigSet="{30}", ThinS=5, Mix="FALSE"),
+                  ThinBD=2, ThinB=43, ThinMD=11, ThinM=53, BigSet="{30}", ThinS=5, ThinP=3, Mix="FALSE"),
     "thorough": dict(NBin="{3, 4, 5}", NMul="{4, 5, 6}", XMaxB=3, XMaxM=2, KMul="{2, 3, 4}", FormsB=FORMS_B,
-                     FormsM=FORMS_M, ThinBD=3, ThinB=97, ThinMD=13, ThinM=173, BigSet="{30, 60}", ThinS=6, Mix="TRUE"),
+                     FormsM=FORMS_M, ThinBD=3, ThinB=97, ThinMD=13, ThinM=173, BigSet="{30, 60}", ThinS=6, ThinP=2, Mix="TRUE"),
 }
 GEN_GLM = {
     "quick": dict(NGlm="{4}", XMax=2, YSet="{1, 2, 4}", ThinD=1, Thin=331),
@@ -76,7 +76,9 @@ def random_cases(ctx, count):
                                               "maxit": 2000, "te": te}})
             continue
         K = 2 if kind == "bin" else r.randint(2, 6)
-        scale = [r.choice([1, 1, 1, 10]) for _ in range(p)]
+        scale = [1] * p                           # at most one feature on a 10x scale (conditioning: see report, round 2)
+        if r.random() < 0.5:
+            scale[r.randrange(p)] = 10
         rows, ys = [], []
         if an == 0:
             for b in base_rows(p):
@@ -99,13 +101,17 @@ def random_cases(ctx, count):
         lt = r.choice(["usize", "string"] + (["bool"] if K == 2 else []))
         names = r.sample(NAME_POOL[lt], K)
         q = [[0] * p, [1000] * p, [-1000] * p, [1000 * (-1) ** j for j in range(p)]]
-        inp = {"x": x, "y": y, "p": p, "q": q, "lt": lt, "names": names, "an": an, "ad": 10, "icpt": icpt, "maxit": 2000, "te": te}
+        qv = [[sg * m] * p for m in (100, 10000) for sg in (1, -1)] + [[r.choice([-1, 1]) * r.choice([100, 1000, 10000]) for _ in range(p)]]
+        inp = {"x": x, "y": y, "p": p, "q": q, "qv": qv, "lt": lt, "names": names, "an": an, "ad": 10, "icpt": icpt, "maxit": 20000, "te": te}
         rows_init = p + (1 if icpt else 0)
         if kind == "bin":
-            inp["init"] = [r.randint(-15, 15) for _ in range(rows_init)] if r.random() < 0.3 else []
+            off = r.choice([0, 0, -20, 20])
+            inp["init"] = [off + r.randint(-15, 15) for _ in range(rows_init)] if r.random() < 0.4 else []
             inp["thrs"] = THRS + [{"k": "row", "r": r.randint(1, len(x) + len(q))}]
         else:
-            inp["init"] = [[r.randint(-15, 15) for _ in range(K)] for _ in range(rows_init)] if r.random() < 0.3 else []
+            # user-supplied start: small table, optionally with a common offset across the classes (-2 / +2)
+            off = r.choice([0, -20, 20])
+            inp["init"] = [[off + r.randint(-10, 10) for _ in range(K)] for _ in range(rows_init)] if r.random() < 0.45 else []
         out.append({"kind": kind, "inp": inp})
     return out
 
